@@ -77,7 +77,7 @@ def prop(pid, files, extra=(), streams=(), direct=(), trusted=(), assumptions=()
 
 prop("C01", ["PepitVerif/Props/C01.lean", "PepitVerif/Math/CvxSem.lean", "PepitVerif/Math/Certificate.lean"],
      streams=[stream("resolve (scripted solver, tagged duals, returned dual value)", "resolve", 150, 3000)],
-     direct=[oracle("c01_certificate", 12, 150)],
+     direct=[oracle("c01_certificate", 28, 300)],
      trusted=["scripted wrapper (Wrapper subclass) standing for the solver in symbolic streams"],
      assumptions=["that the numbers a real solver returns satisfy KKT is runtime behaviour: monitored by the numeric oracle, not proved"])
 
@@ -93,13 +93,13 @@ prop("C03", ["PepitVerif/Props/C03.lean", "PepitVerif/Props/C03LMI.lean", "Pepit
 
 prop("C04", ["PepitVerif/Props/C04.lean", "PepitVerif/Math/PairsSem.lean", "PepitVerif/Math/ClassForms.lean"],
      streams=[stream("cls (glue: which lists, skip rule, symmetry, tables) on random interleavings", "cls", 200, 4000, offset=11)],
-     direct=[oracle("c04_orders", 30, 400)],
+     direct=[oracle("c04_orders", 30, 400), oracle("c04_counts", 120, 2000)],
      trusted=["hand transcription of the documented conditions (Canon.*)"],
      assumptions=["sufficiency of the interpolation conditions (converse interpolation theorems) is literature-trusted, not proved"])
 
 prop("C05", ["PepitVerif/Props/C05.lean", "PepitVerif/Math/MatricesSem.lean", "PepitVerif/Math/SparseSem.lean"],
      streams=[stream("collect+tee (sent list, dense matrices, MOSEK Task call list)", "collect", 120, 2500, env={"PEPV_TEE": "1", "STUBS": "1"})],
-     direct=[oracle("c05_translators", 300, 6000)],
+     direct=[oracle("c05_translators", 300, 6000), oracle("c05_sent", 40, 600), oracle("c11_backends", 28, 300, stubs=True)],
      trusted=["stand-in mosek module (records Task calls; harness/stubs/mosek)"])
 
 prop("C06", ["PepitVerif/Props/C06.lean", "PepitVerif/Math/AlgebraSem.lean", "PepitVerif/Math/WellFormed.lean", "PepitVerif/Math/Interp.lean"],
@@ -119,21 +119,21 @@ prop("C08", ["PepitVerif/Props/C08.lean", "PepitVerif/Math/StepsSem.lean"],
 prop("C09", ["PepitVerif/Props/C09.lean", "PepitVerif/Math/Certificate.lean"], only=[r"C09\.", "cert_sound", "trace_mul_nonneg"],
      streams=[stream("steps (recorded relations of the steps the examples are built from)", "steps", 100, 2000, offset=61),
               stream("cls (class constraints the examples rely on)", "cls", 100, 2000, offset=67)],
-     direct=[oracle("c09_runs", 30, 400)],
+     direct=[oracle("c09_runs", 33, 440), oracle("c03_members", 40, 600)],
      trusted=["independent NumPy implementations of 10 method families (harness/oracles5.py), transcribed from the documented algorithms"],
      assumptions=["that each example script implements the method its docstring names is not visible to Lean: sampled by real runs only",
                   "solver accuracy (CLARABEL ~1e-8) enters the comparison with tolerance 1e-5 relative"])
 
 prop("C10", ["PepitVerif/Props/C10.lean"],
      streams=[stream("tree (expression algebra the examples are written in)", "tree", 100, 1000, offset=71)],
-     direct=[oracle("c10_examples", 40, 103), oracle("c10_refs", 38, 400), oracle("c10_equivalent", 7, 7)],
+     direct=[oracle("c10_examples", 40, 103), oracle("c10_refs", 57, 600), oracle("c10_sweeps", 19, 190), oracle("c10_equivalent", 7, 7)],
      trusted=["hand transcription of 19 published closed forms and their validity ranges (lean/PepitModel/Ref.lean), validated against the pinned tree",
               "frozen reference table harness/ref_table.json (claim tight/upper per example, closed-form value at the suite tuple) generated from the pinned tree"],
      assumptions=["'SDP optimum = closed form for all parameters' is a theorem of the literature per family and is not formalised: this property is decided mostly by correspondence on parameter grids"])
 
 prop("C11", ["PepitVerif/Props/C11.lean"],
      streams=[stream("collect+tee (Task call list of the real MosekWrapper on the stand-in vs model; dense data)", "collect", 150, 3000, env={"PEPV_TEE": "1", "STUBS": "1"}, offset=53)],
-     direct=[oracle("c11_backends", 16, 200, stubs=True)],
+     direct=[oracle("c11_backends", 28, 300, stubs=True), oracle("c11_heuristic", 8, 80, stubs=True)],
      trusted=["stand-in mosek module (harness/stubs/mosek): records Task calls and solves the recorded task through cvxpy, reporting duals in MOSEK's documented convention for maximisation problems (transcribed from the manual); real MOSEK is absent"],
      assumptions=["the semantics of MOSEK's Task API (appendsparsesymmat lower-triangle reading, bound keys, dual signs) are a transcription, not verified against real MOSEK"])
 
@@ -149,7 +149,7 @@ prop("C12", ["PepitVerif/Props/C12.lean"],
 
 prop("C13", ["PepitVerif/Props/C13.lean"],
      streams=[stream("resolve (histories of solves, edits, evaluations of held objects)", "resolve", 200, 4000, offset=31)],
-     direct=[oracle("c13_resolve", 6, 80)])
+     direct=[oracle("c13_resolve", 14, 120)])
 
 prop("C15", ["PepitVerif/Props/C15.lean", "PepitVerif/Math/PartitionSem.lean"],
      streams=[stream("cls (block-smooth functions, partitions with 1-3 blocks)", "cls", 250, 4000, offset=37),
@@ -162,7 +162,7 @@ prop("C16", ["PepitVerif/Props/C16.lean"],
 
 prop("C17", ["PepitVerif/Props/C17.lean", "PepitVerif/Math/PairsSem.lean"], only=[r"C17\.", "mem_pairsTwo", "pairIdx_same"],
      streams=[stream("cls (tables of constraints for every class, named and unnamed points)", "cls", 250, 4000, offset=47)],
-     direct=[oracle("c17_tables", 40, 400)])
+     direct=[oracle("c17_tables", 120, 1200)])
 
 
 # ------------------------------------------------------------------ known findings
